@@ -711,7 +711,7 @@ def main(argv):
     CURRENT_PROP[0] = prop
     sel = [h for h in harnesses if prop in h.props and tier in h.tiers_for(prop)]
     if args.only:
-        sel = [h for h in sel if args.only in h.name]
+        sel = [h for h in sel if args.only in h.name or re.search(args.only, h.name)]
     t0 = time.time()
     extra = {}
     # property-specific pre-steps (generated tables, non-Kani sub-checks)
